@@ -283,8 +283,7 @@ def r5(ctx, fs):
 ROUTE = {'lt': 'new_lt', 'leq': 'new_leq', 'eq': 'new_eq', 'geq': 'new_geq', 'gt': 'new_gt'}
 
 
-def r6(ctx, fs):
-    rid = 'C11.R6'
+def r6(ctx, fs, rid='C11.R6'):
     ctx.rule(rid, 'core::lt/leq/eq/geq/gt(arith,arith): operands of type tp go to rdl_theory::new_<rel>, all others to lra_theory::new_<rel>, with (left->l, right->l) in this order', floor=5)
     for nm, tgt in ROUTE.items():
         f = fs.fn('ratio::core::' + nm, params=['arith_expr', 'arith_expr'])
